@@ -60,10 +60,13 @@ NoK5(s) == \A n \in Strats(C) \ {Root} :
 
 \* SecurityBase.transact on a market-value tree: round trips within a date
 DoTransactMV ==
-  \E x \in Secs(C), q \in {R(10), R(-10)}, u \in BOOLEAN :
+  \E x \in Secs(C), q \in {R(10), R(-10)}, u \in BOOLEAN, custom \in BOOLEAN :
      /\ ops < MaxOps /\ ~st.bankrupt /\ st.t > 0 /\ ~C.fi[Root] /\ ~PriceUnusable(C, st, x)
-     /\ st' = TransactOp(C, R0(st), x, q, NaN, u).st /\ ops' = ops + 1 /\ last' = "transact"
-     /\ lastop' = A!OpRec("transact", x, 1, q, NaN, TRUE, u, 0)
+     /\ custom => C.bidoffer
+     /\ LET cp == IF custom THEN RAdd(Px(C, x, st.t), R(2)) ELSE NaN   \* a bespoke price two ticks off mid
+        IN  /\ st' = TransactOp(C, R0(st), x, q, cp, u).st
+            /\ lastop' = A!OpRec("transact", x, 1, q, cp, TRUE, u, 0)
+     /\ ops' = ops + 1 /\ last' = "transact"
 
 \* `sec.allocate(0)`: nothing for the ledger, a lazy security update underneath
 DoTouch ==
